@@ -3,7 +3,7 @@ from __future__ import annotations
 
 from typing import Any, Dict, List, Optional, Tuple
 
-from ..kit import Case, Ctx, calls, calls_target, kw, normal_paths, poly_of, product_worlds, rule, short, stores, table_check_cases
+from ..kit import Case, Ctx, calls, calls_target, kw, normal_paths, poly_of, product_worlds, rule, short, stores, table_check_cases, loops
 from ..paths import Event, Path
 from ..terms import NONE, Term, diff_const, key, strip_ver, substitute, subterms
 
@@ -309,3 +309,96 @@ def r6(ctx: Ctx) -> None:
             ctx.check(ok, f, f.node, "VWAP = sum(turnover[:t+1]) / sum(volume[:t+1]) when that volume is non-zero", f"{ssum('_executed_total_prices')} / {ssum('_executed_volumes')} under the same-slice zero test",
                       short(r) + f" zero-test={'present' if zero else 'on a different slice or absent'}")
     ctx.require(n >= 2, "get_vwap: returning paths not found")
+
+
+@rule("C08.R7", "per-price depth: every price present in the queue is mapped to the sum of the volumes of all orders at that price, wherever they sit in the heap array", "T7 aggregation shape", floor=1)
+def r7(ctx: Ctx) -> None:
+    from ..terms import normalise
+
+    q = "OrderBook.get_price_volume"
+    f = ctx.func(q)
+    queue = ("attr", ("sym", "self"), "priority_queue")
+    n = 0
+    for p in normal_paths(ctx.paths(q)):
+        n += 1
+        # grouping adjacent equal keys is only a sum per price on input sorted by that key; a heap array is not
+        bad_group = None
+        for e in calls(p):
+            if e.name == "groupby" and e.args:
+                src = normalise(strip_ver(e.args[0]))
+                if not (src[0] == "call" and key(src[1]) == "sorted"):
+                    lit = None
+                    for s_ in subterms(src):
+                        if s_ == queue:
+                            lit = s_
+                    bad_group = e
+        if bad_group is not None:
+            ctx.violated(f, bad_group.node, "orders of one price are summed wherever they are in the queue", "sum over all orders with order.price == price", "itertools.groupby merges only adjacent items; the sequence it is given is in heap order, not sorted by price")
+            continue
+        r = normalise(strip_ver(p.exit[1])) if p.exit[0] == "return" and p.exit[1] is not None else NONE
+        comp = r[2][0] if r[0] == "call" and key(r[1]) == "dict" and r[2] else None
+        ok = False
+        if comp is not None and comp[0] == "comp" and len(comp[3]) == 1 and comp[2][0] == "tuple" and len(comp[2][1]) == 2:
+            kb = ("bound", comp[3][0][0][0]) if len(comp[3][0][0]) == 1 else None
+            val = comp[2][1][1]
+            inner = val[2][0] if val[0] == "call" and key(val[1]) == "sum" and val[2] else None
+            if kb is not None and comp[2][1][0] == kb and inner is not None and inner[0] == "comp" and len(inner[3]) == 1 and inner[3][0][1] == queue and len(inner[3][0][0]) == 1 and len(inner[3][0][2]) == 1:
+                ob = ("bound", inner[3][0][0][0])
+                c = inner[3][0][2][0]
+                ok = inner[2] == ("attr", ob, "volume") and c[0] == "cmp" and c[1] == "==" and {c[2], c[3]} == {("attr", ob, "price"), kb}
+                keys_src = comp[3][0][1]
+                ok = ok and any(s_[0] == "comp" and len(s_[3]) == 1 and s_[3][0][1] == queue and s_[2] == ("attr", ("bound", s_[3][0][0][0]), "price") for s_ in subterms(keys_src))
+        if ok:
+            ctx.holds(f, f.node, "depth = {price: sum(order.volume for order in queue if order.price == price) for every price in the queue}", "sum over the whole queue per price", short(r)[:160])
+            continue
+        # accumulation form: result[o.price] = result.get(o.price, 0) + o.volume over the queue
+        acc = False
+        for l in loops(p):
+            if l.iter is None or strip_ver(l.iter) != queue or not l.target:
+                continue
+            el = ("sym", f"{l.target[0]}∈{l.loopid}")
+            good = 0
+            for bp in l.paths:
+                sts = [e for e in bp.events if e.kind == "store" and e.attr is None]
+                for e in sts:
+                    v = strip_ver(e.value)
+                    if strip_ver(e.index) == ("attr", el, "price") and v[0] == "bin" and v[1] == "+" and ("attr", el, "volume") in (v[2], v[3]):
+                        good += 1
+            acc = acc or good >= 1
+        if not acc:
+            # per-level form: for price in <levels of the queue>: result[price] = <sum of volumes at price>
+            def price_comp(t: Term) -> bool:
+                return any(s_[0] == "comp" and len(s_[3]) == 1 and strip_ver(s_[3][0][1]) == queue and len(s_[3][0][0]) == 1 and s_[2] == ("attr", ("bound", s_[3][0][0][0]), "price") for s_ in subterms(normalise(strip_ver(t))))
+
+            levels_from_queue = any(price_comp(a) for e in calls(p) for a in e.args) or any(price_comp(e.data["literal"]) for e in p.walk_events() if e.kind == "note" and e.data.get("what") == "alloc" and isinstance(e.data.get("literal"), tuple))
+            for l in loops(p):
+                if not l.target or l.iter is None or strip_ver(l.iter) == queue:
+                    continue
+                kel = ("sym", f"{l.target[0]}∈{l.loopid}")
+                for bp in l.paths:
+                    for e in [x for x in bp.events if x.kind == "store" and x.attr is None and strip_ver(x.index) == kel]:
+                        v = e.value
+                        for il in loops(bp):
+                            if il.iter is None or strip_ver(il.iter) != queue or not il.target:
+                                continue
+                            oel = ("sym", f"{il.target[0]}∈{il.loopid}")
+                            names = [nm for nm, out in il.out.items() if out == v]
+                            if not names or il.init.get(names[0]) != ("const", 0):
+                                continue
+                            ph = il.phi[names[0]]
+                            okp = True
+                            for ip in il.paths:
+                                eq = [pol for c, pol, _ in ip.conds if strip_ver(c)[0] == "cmp" and strip_ver(c)[1] == "==" and {strip_ver(c)[2], strip_ver(c)[3]} == {("attr", oel, "price"), kel}]
+                                nv = ip.env.get(names[0])
+                                if eq == [True]:
+                                    okp = okp and nv is not None and nv[0] == "bin" and nv[1] == "+" and {nv[2], nv[3]} == {ph, ("attr", oel, "volume")}
+                                elif eq == [False]:
+                                    okp = okp and nv == ph
+                                else:
+                                    okp = False
+                            acc = acc or (okp and levels_from_queue)
+        if acc:
+            ctx.holds(f, f.node, "depth accumulated per price over the whole queue", "result[o.price] += o.volume for every order", "accumulation loop over self.priority_queue")
+        else:
+            ctx.unrec(f, f.node, "per-price depth is the sum of the volumes at that price", "the way the depth dictionary is built is not modelled", short(r)[:200])
+    ctx.require(n >= 1, f"{q}: no returning path")
